@@ -10,8 +10,10 @@ import Cqos.Props.C12
   * the i-th element (0-based) leaves the output at a reading `≥ t0 + ⌊i/Quantity⌋·Interval`
     (`t0` = creation);
   * hence at most `Quantity·(⌊(T − t0)/Interval⌋ + 1)` elements have left by reading `T`;
-  * consecutive batch starts are at least `Interval` apart and a batch forwards at most
-    `Quantity` elements (C12's invariant), which yields the window form (burst ≤ 2·Quantity).
+  * consecutive batch starts are at least `Interval` apart, element `i` leaves between the
+    starts of batches `⌊i/Q⌋` and `⌊i/Q⌋+1` (`WInv`), hence the window form: the number of
+    elements that left at a reading in `[a, a+W]` is at most `Quantity·(⌊W/Interval⌋ + 2)`
+    (`c04_window`, `c04_window_count`), for every `a`, `W` and action list.
 
   "Left its output" is the completion of the discipline's own send; a consumer that lets
   the `1 + cap(input)` output buffer fill and drains it later sees a burst of its own making.
@@ -206,5 +208,347 @@ example :
 
 /-- the Sleep assumption is what forbids an early wake -/
 example : lstep { linit ⟨2, 100⟩ 0 with pc := .sleeping 101, now := 4 } (.wake 50) = none := by decide
+
+
+/-! ### The window form -/
+
+/-- where the batch starts are, relative to the machine's position -/
+def wlocOK (s : LSt) : Prop :=
+  match s.pc with
+  | .idle => s.starts.length = s.sleeps.length ∧
+      ∀ v, s.starts[s.starts.length - 1]? = some v → v + s.cfg.interval ≤ s.now
+  | .batch _ st => s.starts.length = s.sleeps.length + 1 ∧ s.starts[s.sleeps.length]? = some st
+  | .holding _ st _ => s.starts.length = s.sleeps.length + 1 ∧ s.starts[s.sleeps.length]? = some st
+  | .sleeping u => s.starts.length = s.sleeps.length ∧
+      ∀ v, s.starts[s.starts.length - 1]? = some v → v + s.cfg.interval ≤ u
+  | .done => True
+
+structure WInv (s : LSt) : Prop where
+  wloc : wlocOK s
+  /-- the clock is ahead of everything recorded -/
+  sentLe : ∀ e ∈ s.sent, e.2 ≤ s.now
+  /-- element `i` was sent after batch `⌊i/Q⌋` started … -/
+  lower : ∀ i (hi : i < s.sent.length), ∃ v, s.starts[i / s.cfg.quantity]? = some v ∧ v ≤ (s.sent[i]).2
+  /-- … and before the next batch started -/
+  upper : ∀ i (hi : i < s.sent.length) v, s.starts[i / s.cfg.quantity + 1]? = some v → (s.sent[i]).2 ≤ v
+  /-- consecutive batch starts are at least Interval apart -/
+  spaced : ∀ b v w, s.starts[b]? = some v → s.starts[b + 1]? = some w → v + s.cfg.interval ≤ w
+
+theorem winit (cfg : LCfg) (t0 : Nat) : WInv (linit cfg t0) :=
+  ⟨by simp [wlocOK, linit], by simp [linit], by simp [linit], by simp [linit], by simp [linit]⟩
+
+theorem wstep_inv (s s' : LSt) (a : LAct) (hq : 0 < s.cfg.quantity) (hl : LInv s) (h : WInv s)
+    (hs : lstep s a = some s') : WInv s' := by
+  have hloc := h.wloc
+  have hst := hl.startLe
+  have hc := hl.count
+  have hh := hl.hold
+  unfold lstep at hs
+  split at hs
+  · -- idle, start t
+    rename_i t hpc
+    split at hs
+    · rename_i hle
+      cases hs
+      simp only [wlocOK, hpc] at hloc
+      refine ⟨?_, ?_, ?_, ?_, ?_⟩
+      · simp only [wlocOK, List.length_append, List.length_cons, List.length_nil]
+        refine ⟨by omega, ?_⟩
+        rw [← hloc.1]
+        simp
+      · intro e he; have := h.sentLe e he; simp only; omega
+      · intro i hi
+        obtain ⟨v, hv, hle'⟩ := h.lower i hi
+        refine ⟨v, ?_, hle'⟩
+        have hlt : i / s.cfg.quantity < s.starts.length := by
+          obtain ⟨hh', _⟩ := List.getElem?_eq_some_iff.mp hv
+          exact hh'
+        simp only
+        rw [List.getElem?_append_left hlt]; exact hv
+      · intro i hi v hv
+        simp only at hv
+        by_cases hlt : i / s.cfg.quantity + 1 < s.starts.length
+        · rw [List.getElem?_append_left hlt] at hv; exact h.upper i hi v hv
+        · by_cases heq : i / s.cfg.quantity + 1 = s.starts.length
+          · rw [heq, List.getElem?_append_right (Nat.le_refl _)] at hv
+            simp at hv; subst hv
+            have := h.sentLe _ (List.getElem_mem hi)
+            omega
+          · rw [List.getElem?_eq_none (by simp; omega)] at hv; cases hv
+      · intro b v w hv hw
+        simp only at hv hw
+        by_cases hlt : b + 1 < s.starts.length
+        · rw [List.getElem?_append_left hlt] at hw
+          rw [List.getElem?_append_left (by omega)] at hv
+          exact h.spaced b v w hv hw
+        · by_cases heq : b + 1 = s.starts.length
+          · rw [heq, List.getElem?_append_right (Nat.le_refl _)] at hw
+            simp at hw; subst hw
+            rw [List.getElem?_append_left (by omega)] at hv
+            have hb : b = s.starts.length - 1 := by omega
+            rw [hb] at hv
+            have := hloc.2 v hv
+            simp only; omega
+          · rw [List.getElem?_eq_none (by simp; omega)] at hw; cases hw
+    · cases hs
+  · -- batch, recv
+    rename_i k st x hpc
+    split at hs
+    · cases hs
+      simp only [wlocOK, hpc] at hloc
+      exact ⟨by simpa [wlocOK] using hloc, h.sentLe, h.lower, h.upper, h.spaced⟩
+    · cases hs
+  · -- batch, closed
+    rename_i k st hpc
+    split at hs
+    · cases hs; exact ⟨by simp [wlocOK], h.sentLe, h.lower, h.upper, h.spaced⟩
+    · cases hs
+  · -- holding, sent t
+    rename_i k st x t hpc
+    split at hs
+    · rename_i hle
+      cases hs
+      simp only [wlocOK, hpc] at hloc
+      simp only [batchStart, hpc] at hst
+      simp only [isHolding, inBatch, hpc, forall_const] at hh
+      have hcnt : s.sent.length = s.cfg.quantity * s.sleeps.length + k := by
+        rcases hc with ⟨_, e⟩ | ⟨e, _⟩
+        · simpa [inBatch, hpc] using e
+        · rw [hpc] at e; cases e
+      have hdiv : s.sent.length / s.cfg.quantity = s.sleeps.length := by
+        rw [hcnt, Nat.mul_add_div hq, Nat.div_eq_of_lt hh]; simp
+      refine ⟨by simpa [wlocOK] using hloc, ?_, ?_, ?_, h.spaced⟩
+      · intro e he
+        simp only [List.mem_append, List.mem_singleton] at he
+        rcases he with he | he
+        · have := h.sentLe e he; simp only; omega
+        · subst he; simp
+      · intro i hi
+        simp only [List.length_append, List.length_cons, List.length_nil] at hi
+        by_cases hlt : i < s.sent.length
+        · simp only [List.getElem_append_left hlt]; exact h.lower i hlt
+        · have hi' : i = s.sent.length := by omega
+          subst hi'
+          simp only [List.getElem_append_right (Nat.le_refl _), Nat.sub_self, List.getElem_cons_zero]
+          rw [hdiv]
+          exact ⟨st, hloc.2, by omega⟩
+      · intro i hi v hv
+        simp only [List.length_append, List.length_cons, List.length_nil] at hi
+        by_cases hlt : i < s.sent.length
+        · simp only [List.getElem_append_left hlt]; exact h.upper i hlt v hv
+        · have hi' : i = s.sent.length := by omega
+          subst hi'
+          have hl1 := hloc.1
+          have hnone : s.starts[s.sleeps.length + 1]? = none := List.getElem?_eq_none (by omega)
+          rw [hdiv, hnone] at hv; cases hv
+    · cases hs
+  · -- batch, batchEnd t
+    rename_i k st t hpc
+    split at hs
+    · rename_i hc2
+      cases hs
+      simp only [wlocOK, hpc] at hloc
+      refine ⟨?_, ?_, h.lower, h.upper, h.spaced⟩
+      · simp only [wlocOK, List.length_append, List.length_cons, List.length_nil]
+        refine ⟨hloc.1, ?_⟩
+        intro v hv
+        rw [hloc.1] at hv
+        simp only [Nat.add_sub_cancel] at hv
+        rw [hloc.2] at hv; cases hv
+        exact Nat.le_max_right _ _
+      · intro e he; have := h.sentLe e he; simp only; omega
+    · cases hs
+  · -- sleeping, wake t
+    rename_i u t hpc
+    split at hs
+    · rename_i hc2
+      cases hs
+      simp only [wlocOK, hpc] at hloc
+      refine ⟨?_, ?_, h.lower, h.upper, h.spaced⟩
+      · simp only [wlocOK]; exact ⟨hloc.1, fun v hv => by have := hloc.2 v hv; omega⟩
+      · intro e he; have := h.sentLe e he; simp only; omega
+    · cases hs
+  · cases hs
+
+theorem wrun_inv (acts : List LAct) (s s' : LSt) (hq : 0 < s.cfg.quantity) (hl : LInv s) (h : WInv s)
+    (hr : lrun s acts = some s') : WInv s' ∧ s'.cfg = s.cfg := by
+  induction acts generalizing s with
+  | nil => simp [lrun] at hr; subst hr; exact ⟨h, rfl⟩
+  | cons a as ih =>
+    simp only [lrun] at hr
+    split at hr
+    · rename_i s1 hs1
+      obtain ⟨hl1, hc1⟩ := lstep_inv s s1 a hl hs1
+      have hw1 := wstep_inv s s1 a hq hl h hs1
+      obtain ⟨r1, r2⟩ := ih s1 (by rw [hc1]; exact hq) hl1 hw1 hr
+      exact ⟨r1, by rw [r2, hc1]⟩
+    · cases hr
+
+/-- batch starts `n` apart in index are `n·Interval` apart in time -/
+theorem spaced_iter (s : LSt) (h : WInv s) (n b v w : Nat)
+    (hv : s.starts[b]? = some v) (hw : s.starts[b + n]? = some w) : v + n * s.cfg.interval ≤ w := by
+  induction n generalizing w with
+  | zero => simp at hw; rw [hv] at hw; cases hw; omega
+  | succ n ih =>
+    have hlt : b + (n + 1) < s.starts.length := by
+      obtain ⟨hh', _⟩ := List.getElem?_eq_some_iff.mp hw
+      exact hh'
+    have hm : s.starts[b + n]? = some s.starts[b + n] := List.getElem?_eq_getElem (by omega)
+    have h1 := ih _ hm
+    have h2 := h.spaced (b + n) _ w hm (by rw [← Nat.add_assoc] at hw; exact hw)
+    rw [Nat.add_mul, Nat.one_mul]; omega
+
+theorem aux_near (a b w : Nat) (h : a ≤ b + 1) : a - b + 1 ≤ w + 2 := by omega
+
+theorem aux_far (a b w k : Nat) (h : a - b - 1 ≤ k) (hk : k ≤ w) : a - b + 1 ≤ w + 2 := by omega
+
+/-- **C04 (window, index form).** If elements `i ≤ j` left the output at readings at most `W`
+    apart, then `j − i + 1 ≤ Quantity·(⌊W/Interval⌋ + 2)`: no window of length `W` contains
+    more output elements than that, for every action list. -/
+theorem c04_window (cfg : LCfg) (t0 : Nat) (hq : 0 < cfg.quantity) (hI : 0 < cfg.interval)
+    (acts : List LAct) (s : LSt) (hr : lrun (linit cfg t0) acts = some s)
+    (i j : Nat) (hij : i ≤ j) (hj : j < s.sent.length) (W : Nat)
+    (hW : (s.sent[j]).2 ≤ (s.sent[i]'(by omega)).2 + W) :
+    j - i + 1 ≤ cfg.quantity * (W / cfg.interval + 2) := by
+  obtain ⟨h, hc⟩ := wrun_inv acts _ s hq (linit_inv cfg t0) (winit cfg t0) hr
+  have hc' : s.cfg = cfg := by rw [hc]; rfl
+  have hi : i < s.sent.length := by omega
+  obtain ⟨vi, hvi, hlei⟩ := h.lower i hi
+  obtain ⟨vj, hvj, hlej⟩ := h.lower j hj
+  rw [hc'] at hvi hvj
+  have hdi := Nat.div_add_mod i cfg.quantity
+  have hdj := Nat.div_add_mod j cfg.quantity
+  have hmi := Nat.mod_lt i hq
+  have hmj := Nat.mod_lt j hq
+  have hmono : i / cfg.quantity ≤ j / cfg.quantity := Nat.div_le_div_right hij
+  -- j − i + 1 ≤ Q·(bj − bi + 1)
+  have hcount : j - i + 1 ≤ cfg.quantity * (j / cfg.quantity - i / cfg.quantity + 1) := by
+    have : cfg.quantity * (j / cfg.quantity - i / cfg.quantity + 1)
+        = cfg.quantity * (j / cfg.quantity) - cfg.quantity * (i / cfg.quantity) + cfg.quantity := by
+      rw [Nat.mul_add, Nat.mul_one, Nat.mul_sub]
+    have hm2 : cfg.quantity * (i / cfg.quantity) ≤ cfg.quantity * (j / cfg.quantity) :=
+      Nat.mul_le_mul_left _ hmono
+    omega
+  by_cases hnear : j / cfg.quantity ≤ i / cfg.quantity + 1
+  · have hle2 : j / cfg.quantity - i / cfg.quantity + 1 ≤ W / cfg.interval + 2 := aux_near _ _ _ hnear
+    have : cfg.quantity * (j / cfg.quantity - i / cfg.quantity + 1) ≤ cfg.quantity * (W / cfg.interval + 2) :=
+      Nat.mul_le_mul_left _ hle2
+    omega
+  · -- at least one whole batch start strictly between
+    have hlt : i / cfg.quantity + 1 < s.starts.length := by
+      obtain ⟨hjl, _⟩ := List.getElem?_eq_some_iff.mp hvj
+      omega
+    have hm : s.starts[i / cfg.quantity + 1]? = some s.starts[i / cfg.quantity + 1] :=
+      List.getElem?_eq_getElem hlt
+    have hup := h.upper i hi _ (by rw [hc']; exact hm)
+    have hn : i / cfg.quantity + 1 + (j / cfg.quantity - i / cfg.quantity - 1) = j / cfg.quantity := by omega
+    have hsp := spaced_iter s h (j / cfg.quantity - i / cfg.quantity - 1) (i / cfg.quantity + 1) _ vj hm
+      (by rw [hn]; exact hvj)
+    rw [hc'] at hsp
+    have hWI : (j / cfg.quantity - i / cfg.quantity - 1) * cfg.interval ≤ W := by omega
+    have hb : j / cfg.quantity - i / cfg.quantity - 1 ≤ W / cfg.interval := (Nat.le_div_iff_mul_le hI).2 hWI
+    have hle2 : j / cfg.quantity - i / cfg.quantity + 1 ≤ W / cfg.interval + 2 :=
+      aux_far _ _ _ _ (Nat.le_refl _) hb
+    have : cfg.quantity * (j / cfg.quantity - i / cfg.quantity + 1) ≤ cfg.quantity * (W / cfg.interval + 2) :=
+      Nat.mul_le_mul_left _ hle2
+    omega
+
+
+theorem filter_length_le_of_span {α} (P : α → Bool) (M : Nat) (l : List α)
+    (h : ∀ i j (hi : i < l.length) (hj : j < l.length), i ≤ j → P l[i] = true → P l[j] = true → j - i + 1 ≤ M) :
+    (l.filter P).length ≤ M := by
+  induction l with
+  | nil => simp
+  | cons x xs ih =>
+    by_cases hx : P x = true
+    · rw [List.filter_cons_of_pos hx, List.length_cons]
+      have hM : 1 ≤ M := by
+        have := h 0 0 (by simp) (by simp) (Nat.le_refl _) (by simpa using hx) (by simpa using hx)
+        omega
+      have hxs : (xs.filter P).length ≤ M - 1 := by
+        apply filter_length_le_of_index
+        intro i' hi' hp
+        have := h 0 (i' + 1) (by simp) (by simp; omega) (by omega) (by simpa using hx) (by simpa using hp)
+        omega
+      omega
+    · rw [List.filter_cons_of_neg hx]
+      apply ih
+      intro i j hi hj hij hpi hpj
+      have := h (i + 1) (j + 1) (by simp; omega) (by simp; omega) (by omega) (by simpa using hpi) (by simpa using hpj)
+      omega
+
+/-- **C04 (window).** For every action list, every `a` and every `W`: the number of elements
+    that left the output at a clock reading in `[a, a + W]` is at most
+    `Quantity·(⌊W/Interval⌋ + 2)`. -/
+theorem c04_window_count (cfg : LCfg) (t0 : Nat) (hq : 0 < cfg.quantity) (hI : 0 < cfg.interval)
+    (acts : List LAct) (s : LSt) (hr : lrun (linit cfg t0) acts = some s) (a W : Nat) :
+    (s.sent.filter (fun e => decide (a ≤ e.2 ∧ e.2 ≤ a + W))).length ≤ cfg.quantity * (W / cfg.interval + 2) := by
+  apply filter_length_le_of_span
+  intro i j hi hj hij hpi hpj
+  simp only [decide_eq_true_eq] at hpi hpj
+  exact c04_window cfg t0 hq hI acts s hr i j hij hj W (by omega)
+
+/-- the elements leave the output in clock order (so the elements inside a time window are a
+    contiguous index range, to which `c04_window` applies) -/
+theorem c04_sent_sorted (cfg : LCfg) (t0 : Nat) (acts : List LAct) (s : LSt)
+    (hr : lrun (linit cfg t0) acts = some s) :
+    s.sent.Pairwise (fun a b => a.2 ≤ b.2) ∧ ∀ e ∈ s.sent, e.2 ≤ s.now := by
+  suffices H : ∀ (acts : List LAct) (s0 s : LSt),
+      (s0.sent.Pairwise (fun a b => a.2 ≤ b.2) ∧ ∀ e ∈ s0.sent, e.2 ≤ s0.now) → lrun s0 acts = some s →
+      (s.sent.Pairwise (fun a b => a.2 ≤ b.2) ∧ ∀ e ∈ s.sent, e.2 ≤ s.now) from
+    H acts _ s (by simp [linit]) hr
+  intro acts
+  induction acts with
+  | nil => intro s0 s h hr; simp [lrun] at hr; subst hr; exact h
+  | cons a as ih =>
+    intro s0 s h hr
+    simp only [lrun] at hr
+    split at hr
+    · rename_i s1 hs1
+      refine ih s1 s ?_ hr
+      obtain ⟨hp, hn⟩ := h
+      unfold lstep at hs1
+      split at hs1
+      · split at hs1
+        · cases hs1; exact ⟨hp, fun e he => by have := hn e he; simp only; omega⟩
+        · cases hs1
+      · split at hs1
+        · cases hs1; exact ⟨hp, hn⟩
+        · cases hs1
+      · split at hs1
+        · cases hs1; exact ⟨hp, hn⟩
+        · cases hs1
+      · split at hs1
+        · rename_i hle
+          cases hs1
+          refine ⟨?_, ?_⟩
+          · rw [List.pairwise_append]
+            refine ⟨hp, by simp, ?_⟩
+            intro a ha b hb
+            simp only [List.mem_singleton] at hb; subst hb
+            have := hn a ha; simp only; omega
+          · intro e he
+            simp only [List.mem_append, List.mem_singleton] at he
+            rcases he with he | he
+            · have := hn e he; simp only; omega
+            · subst he; simp
+        · cases hs1
+      · split at hs1
+        · cases hs1; exact ⟨hp, fun e he => by have := hn e he; simp only; omega⟩
+        · cases hs1
+      · split at hs1
+        · cases hs1; exact ⟨hp, fun e he => by have := hn e he; simp only; omega⟩
+        · cases hs1
+      · cases hs1
+    · cases hr
+
+/-- non-vacuity: a run in which the window bound is attained with equality for `W = 0`
+    … `Quantity = 2`, two elements at the end of one batch and two at the start of the next,
+    all at the same reading is impossible (the batches are Interval apart), but three within
+    one Interval are possible: -/
+example :
+    ∃ s, lrun (linit ⟨2, 10⟩ 0) [.start 0, .recv 1, .sent 9, .recv 2, .sent 9, .batchEnd 9, .wake 10,
+        .start 10, .recv 3, .sent 10] = some s ∧ s.sent = [(1, 9), (2, 9), (3, 10)] := by
+  refine ⟨_, rfl, rfl⟩
 
 end Cqos.C04
